@@ -54,6 +54,13 @@ func cmdVC(args []string) {
 		os.Exit(2)
 	}
 	fmt.Printf("loaded %d packages, %d functions, %d contracts in %.1fs\n", len(g.pkgs), len(g.funcs), len(g.contracts), g.loadTime.Seconds())
+	if fs2, err := loadFindings("/verif/known-findings.txt"); err == nil {
+		for _, f := range fs2 {
+			if !f.Fixed {
+				g.findingObls[f.Obligation] = f.When
+			}
+		}
+	}
 	rx := regexp.MustCompile(*re)
 	var keys []string
 	for k := range g.funcs {
@@ -141,9 +148,9 @@ func cmdFrames(args []string) {
 				for _, in := range b.Instrs {
 					if ci, ok := in.(ssaCall); ok && !ci.Common().IsInvoke() == false {
 						for i, a := range ci.Common().Args {
-							fmt.Printf("  %s invoke %s arg%d %s: dyn=%v\n", shortKey(k), ci.Common().Method.Name(), i, a.Type(), len(g.dynTypes(a, 0)))
+							fmt.Printf("  %s invoke %s arg%d %s: dyn=%v fresh=%v (%T)\n", shortKey(k), ci.Common().Method.Name(), i, a.Type(), len(g.dynTypes(a, 0)), g.isFreshValue(a, 0), a)
 							if i == 0 {
-								cf := g.callFrame(ci.Common())
+								cf := g.callFrame(ci.Common(), true)
 								fmt.Printf("     callFrame: top=%v n=%d pure=%v inmod=%v\n", cf.top, len(cf.arrs), g.pureIfaceMethod(ci.Common()), g.inModule(ci.Common().Method.Pkg()))
 							}
 						}
